@@ -55,6 +55,8 @@ def gen(ctx):
     nl = int(rng.integers(6, 14))
     sig = rng.choice(['none', 'none', 'linear', 'exp', 'sqrt', 'sq', 'array'])
     sigma = None if sig == 'none' else (rng.uniform(0.5, 2.0, size=nl).tolist() if sig == 'array' else str(sig))
+    # what a per-class uncertainty looks like at an empty class (std / sqrt(N) with N = 0): inf / NaN / huge there
+    empty_fill = str(rng.choice(['keep', 'inf', 'nan', 'huge'])) if sig == 'array' else 'keep'
     from scipy.spatial.distance import pdist
     dmax = float(pdist(coords).max())
     ml = rng.choice(['none', 'none', 'ratio', 'median', 'abs_above', 'abs_below'])
@@ -62,7 +64,8 @@ def gen(ctx):
               'abs_above': dmax * 1.5 + 1, 'abs_below': max(1.5, dmax * 0.7)}[str(ml)]
     binf = str(rng.choice(['even', 'even', 'uniform', 'kmeans', 'sturges'])) if sig != 'array' else 'even'
     return dict(coords=coords.tolist(), values=values.tolist(), model=model, method=method, n_lags=nl,
-                use_nugget=bool(rng.random() < 0.5), fit_sigma=sigma, kind=kind, maxlag=maxlag, bin_func=binf)
+                use_nugget=bool(rng.random() < 0.5), fit_sigma=sigma, kind=kind, maxlag=maxlag, bin_func=binf,
+                sigma_at_empty=empty_fill)
 
 
 def objective(f, x, y, sigma, p):
@@ -72,8 +75,33 @@ def objective(f, x, y, sigma, p):
     return float(np.sum(((m - y) / s) ** 2))
 
 
+def same_up_to_scale(a, b):
+    """equal up to one positive factor: rescaling all weights does not change the minimisers of the objective"""
+    if len(a) != len(b):
+        return False
+    if not a:
+        return True
+    if not all(math.isfinite(x) and x > 0 for x in a) or not all(math.isfinite(x) and x > 0 for x in b):
+        return a == b
+    k = b[0] / a[0]
+    return all(abs(y - k * x) <= 1e-12 * abs(y) for x, y in zip(a, b))
+
+
 @guarded
 def check_case(ctx, case):
+    if isinstance(case['fit_sigma'], list) and case.get('sigma_at_empty', 'keep') != 'keep':
+        # find the empty lag classes first (no fit), then put inf / NaN / a huge number there
+        try:
+            with quiet():
+                P = Variogram(np.array(case['coords']), np.array(case['values']), n_lags=case['n_lags'],
+                              maxlag=case['maxlag'], bin_func=case.get('bin_func', 'even'), fit_method=None)
+                empty = np.isnan(np.asarray(P.experimental, float))
+        except Exception:
+            empty = np.zeros(len(case['fit_sigma']), bool)
+        if len(empty) == len(case['fit_sigma']) and empty.any():
+            fill = dict(inf=float('inf'), nan=float('nan'), huge=1e300)[case['sigma_at_empty']]
+            case = dict(case, fit_sigma=[fill if e else v for v, e in zip(case['fit_sigma'], empty)])
+            ctx.count('sigma_array_' + case['sigma_at_empty'] + '_at_empty_classes')
     rec = Recorder()
     VM.curve_fit = rec
     err = None
@@ -141,11 +169,11 @@ def check_case(ctx, case):
         if mx != call['x'].tolist() or my != call['y'].tolist():
             ctx.violation('fit-inputs', 'curve_fit received x=%r y=%r, model (NaN classes removed) x=%r y=%r' % (
                 call['x'].tolist(), call['y'].tolist(), mx, my), case)
-        elif (ms is None) != (call['sigma'] is None) or (ms is not None and ms != call['sigma'].tolist()):
+        elif (ms is None) != (call['sigma'] is None) or (ms is not None and not same_up_to_scale(ms, call['sigma'].tolist())):
             ctx.violation('fit-sigma', 'curve_fit received sigma=%r, model %r' % (
                 None if call['sigma'] is None else call['sigma'].tolist(), ms), case)
     ctx.lean.ask(['c05', 'filter', frs(edges), ' '.join('nan' if math.isnan(v) else fr(v) for v in exp),
-                  'none' if fs is None else frs(fs)], cb)
+                  'none' if fs is None else frs([x if math.isfinite(x) else -1.0 for x in fs.tolist()])], cb)
     if isinstance(case['fit_sigma'], str) and fs is not None:
         # named weights: generated formula (Float twin) on x = lag edge / largest lag edge
         xrel = (edges / np.max(edges)).tolist()
